@@ -461,6 +461,10 @@ class HTTPConnection(_HTTPConnection):
                 if isinstance(chunk, str):
                     chunk = chunk.encode("utf-8")
                 if chunked:
+                    if not isinstance(chunk, bytes):
+                        # len() of a buffer counts its items, the size line
+                        # of a chunk counts bytes.
+                        chunk = memoryview(chunk).cast("B")
                     self.send(b"%x\r\n%b\r\n" % (len(chunk), chunk))
                 else:
                     self.send(chunk)
